@@ -143,7 +143,7 @@ def check_direct(case) -> str:
             sub = Subroutine(instructions=instrs, netqasm_version=tuple(case.get("version", [0, 0])), app_id=0)
             sub.app_id = case.get("app_id", 0)
         else:
-            sub = Subroutine(instructions=instrs, netqasm_version=tuple(case.get("version", [0, 0])), app_id=case.get("app_id", 0))
+            sub = Subroutine(instructions=instrs, netqasm_version=(None if case.get("version", 0) is None else tuple(case.get("version", [0, 0]))), app_id=case.get("app_id", 0))
         raw = bytes(sub)
     except Failure:
         raise
@@ -353,6 +353,10 @@ def enumerated() -> List[Any]:
         cases.append({"route": "direct", "what": "app_id", "via": "setter", "flavour": "vanilla", "cls": None, "vals": [], "app_id": v, "value": v})
         cases.append({"route": "sdk", "what": "app_id_instantiate", "value": v})
         cases.append({"route": "text", "what": "app_id", "flavour": "vanilla", "text": f"# NETQASM 0.0\n# APPID {v}\nset R0 1", "value": v})
+        # the version line is optional in the text format
+        cases.append({"route": "text", "what": "app_id", "flavour": "vanilla", "text": f"# APPID {v}\nset R0 1", "value": v})
+        cases.append({"route": "text", "what": "app_id", "flavour": "vanilla", "text": f"# APPID {v}\n# NETQASM 1.0\nset R0 1", "value": v})
+        cases.append({"route": "direct", "what": "app_id", "flavour": "vanilla", "cls": None, "vals": [], "app_id": v, "value": v, "version": None})
         cases.append({"route": "sdk", "what": "app_id", "value": v})
     for v in OUT_VER:
         for p in (0, 1):
